@@ -151,12 +151,12 @@ Definition local_pass (r : nat) (st0 cur : list pnode) (na : nat) : lpass :=
 Record world := mkWorld { w_st : list pnode; w_na : list nat }.
 
 (* all ranks sweep (each reads the other ranks' unknowns from the state of the beginning of the round) *)
+Definition sweep_f (w : world) (a : list pnode * list nat * list (list (nat * nat))) (r : nat) :=
+  let '(cur, nas, msgs) := a in
+  let lp := local_pass r (w_st w) cur (nth r nas 0%nat) in
+  (lp_cur lp, upd nas r (lp_na lp), msgs ++ [lp_msgs lp]).
 Definition sweep (w : world) : list pnode * list nat * list (list (nat * nat)) :=
-  fold_left (fun (a : list pnode * list nat * list (list (nat * nat))) r =>
-               let '(cur, nas, msgs) := a in
-               let lp := local_pass r (w_st w) cur (nth r (w_na w) 0%nat) in
-               (lp_cur lp, nas ++ [lp_na lp], msgs ++ [lp_msgs lp]))
-            (seq 0 (length parts)) (w_st w, [], []).
+  fold_left (sweep_f w) (seq 0 (length parts)) (w_st w, w_na w, []).
 
 (* the receive loop (594-611): senders in increasing rank order, each message in order;
    loc_owner[c] = sender, loc_state[c] = id, unconditionally *)
